@@ -472,3 +472,45 @@ M("C07-benign-zero-guard-form", "C07", "src/cppparser/cppExpression.cxx",
   "      if (r2.as_integer() == 0 ||\n          (r2.as_integer() == -1 && r1.as_integer() == INT_MIN)) {\n        return Result();\n      }\n      return Result(r1.as_integer() % r2.as_integer());",
   "      if (r2.as_integer() == 0) {\n        return Result();\n      }\n      if (r2.as_integer() == -1 && r1.as_integer() == INT_MIN) {\n        return Result();\n      }\n      return Result(r1.as_integer() % r2.as_integer());",
   benign=True)
+
+# ---------------------------------------------------------------- C15
+M("C15-delete-type-case", "C15", "src/cppparser/cppExpression.cxx",
+  "  case T_lambda:\n  case T_default:\n  case T_delete:\n    // Not something we can evaluate to a constant.\n    return Result();\n\n", "",
+  expect="R15.1|CPPExpression::evaluate|switch(_type)")
+M("C15-new-abort", "C15", "src/cppparser/cppScope.cxx",
+  "void CPPScope::\nadd_declaration(CPPDeclaration *decl, CPPScope *global_scope,\n                CPPPreprocessor *preprocessor, const cppyyltype &pos) {",
+  "void CPPScope::\nadd_declaration(CPPDeclaration *decl, CPPScope *global_scope,\n                CPPPreprocessor *preprocessor, const cppyyltype &pos) {\n  if (decl == nullptr) {\n    abort();\n  }",
+  expect="R15.1|CPPScope::add_declaration|abort")
+M("C15-error-abort-enabled", "C15", "src/cppparser/cppPreprocessor.cxx",
+  "  _error_abort = false;", "  _error_abort = true;",
+  expect="R15.1|CPPPreprocessor::_error_abort")
+M("C15-scan-raw-unguarded", "C15", "src/cppparser/cppPreprocessor.cxx",
+  "      if (str.size() >= delimiter.size() &&\n          str.compare(", "      if (str.compare(",
+  expect="R15.2|CPPPreprocessor::scan_raw")
+M("C15-should-include-unguarded", "C15", "src/interrogate/interrogateBuilder.cxx",
+  "  if (filename.length() > 3 &&", "  if (filename.length() > 1 &&",
+  expect="R15.2|InterrogateBuilder::should_include")
+M("C15-include-last-char-unguarded", "C15", "src/cppparser/cppPreprocessor.cxx",
+  "  if (!expr.empty()) {\n    if (expr[0] == '\"' && expr[expr.size() - 1] == '\"') {", "  if (true) {\n    if (expr[0] == '\"' && expr[expr.size() - 1] == '\"') {",
+  expect="R15.4|CPPPreprocessor::handle_include_directive")
+M("C15-parse-file-always-true", "C15", "src/cppparser/cppParser.cxx",
+  "  parse_cpp(this);\n\n  return get_error_count() == 0;", "  parse_cpp(this);\n\n  return true;",
+  expect="R15.6|parse_file|returns-no-errors")
+M("C15-error-not-counted", "C15", "src/cppparser/cppPreprocessor.cxx",
+  "      cerr << \"Aborting.\\n\";\n      abort();\n    }\n  }\n  _error_count++;", "      cerr << \"Aborting.\\n\";\n      abort();\n    }\n    _error_count++;\n  }",
+  expect="R15.6|error(")
+M("C15-parse-failure-continues", "C15", "src/interrogate/interrogate.cxx",
+  "      cerr << \"interrogate failed to parse file: '\" << argv[i] << \"'\\n\";\n      exit(1);", "      cerr << \"interrogate failed to parse file: '\" << argv[i] << \"'\\n\";",
+  expect="R15.6|interrogate.cxx::main|parse_file-failure-exits-nonzero")
+M("C15-no-nested-ignore", "C15", "src/cppparser/cppPreprocessor.cxx",
+  "          CPPManifest::Ignores nested_ignores(ignores);\n          nested_ignores.insert(manifest);", "          CPPManifest::Ignores nested_ignores(ignores);",
+  expect="R15.7|expand_manifests|")
+M("C15-division-unguarded", "C15", "src/cppparser/cppExpression.cxx",
+  "        if (r2.as_integer() == 0 ||\n            (r2.as_integer() == -1 && r1.as_integer() == INT_MIN)) {\n          return Result();\n        }\n", "",
+  expect="R15.3|CPPExpression::evaluate")
+M("C15-benign-guard-form", "C15", "src/cppparser/cppPreprocessor.cxx",
+  "      if (str.size() >= delimiter.size() &&\n          str.compare(", "      if (!(str.size() < delimiter.size()) &&\n          str.compare(",
+  benign=True)
+M("C15-benign-return-1", "C15", "src/interrogate/interrogate.cxx",
+  "      cerr << \"interrogate failed to parse file: '\" << argv[i] << \"'\\n\";\n      exit(1);", "      cerr << \"interrogate failed to parse file: '\" << argv[i] << \"'\\n\";\n      return 1;",
+  benign=True)
